@@ -52,6 +52,18 @@ class Recorder:
                     rec.current = ""   # the loop over this file has ended
                 return data
 
+            def readinto(self, b):
+                n = self.f.readinto(b)
+                data = bytes(memoryview(b)[:n]) if n else b""
+                rec.current = self.path
+                rec.events.append({"k": "read", "f": "", "n": len(b), "got": len(data), "id": hashlib.sha1(data).hexdigest()[:12], "p": self.path})
+                if not data:
+                    rec.current = ""
+                return n
+
+            def __getattr__(self, name):      # anything else goes straight to the real file object
+                return getattr(self.f, name)
+
             def __enter__(self):
                 return self
 
@@ -72,7 +84,7 @@ class Recorder:
         rec._orig_update = orig_update
 
         def update(self_h, data):
-            rec.events.append({"k": "update", "f": names.get(type(self_h), type(self_h).__name__), "n": 0, "got": len(data), "id": hashlib.sha1(data).hexdigest()[:12], "p": getattr(rec, "current", "")})
+            rec.events.append({"k": "update", "f": names.get(type(self_h), type(self_h).__name__), "n": 0, "got": len(data), "id": hashlib.sha1(bytes(data)).hexdigest()[:12], "p": getattr(rec, "current", "")})
             return orig_update(self_h, data)
 
         H.Hasher.update = update
